@@ -19,7 +19,7 @@ ASSUMES = ['which buffer the module hands to which parameter of the Function is 
 def corr_jobs(tier, rng):
     modes = list(cd.MODES)
     LL = [(2, 4), (4, 2), (4, 6), (6, 2)] if tier == 'quick' else [(2, 4), (4, 2), (4, 6), (6, 2), (8, 4), (2, 10)]
-    cs = cd.cases_modules_2d(rng, LL, lambda a, b: [(3, 4), (5, 7), (8, 8), (9, 12), (13, 6), (2 * a + 1, 2 * b)], modes, Js=(1, 2), four=True)
+    cs = cd.cases_modules_2d(rng, LL, lambda a, b: [(3, 4), (5, 7), (8, 8), (9, 12), (13, 6), (2 * a + 1, 2 * b)], modes, Js=(1, 2), four=True, none_masks=True)
     cs += cd.cases_modules_2d(rng, [(2, 4), (2, 6)], lambda a, b: [(5, 8), (9, 7)], modes, Js=(1, 2), four=False)
     cs += cd.cases_functions_2d(rng, LL[:3], lambda a, b: [(5, 8), (8, 5), (7, 7)], modes, NC=((1, 2),))
     cs += [c for c in cd.cases_nonsep(rng, [(2, 4), (4, 6)], lambda a, b: [(6, 9), (9, 12)]) if c.entry in (18, 19)]
@@ -33,7 +33,7 @@ def oracle_cases(tier, rng):
         for mode in MODES5:
             for J in (1, 2):
                 for (H, W) in [(2 * Lc + 1, 2 * Lr + 2), (4 * Lc, 4 * Lr + 1), (16, 23), (12, 16)]:
-                    for chk in ('fwd', 'inv', 'functional'):
+                    for chk in ('fwd', 'inv', 'functional', 'inv_none'):
                         if chk == 'functional' and (J > 1 or mode == 'periodic'):
                             continue
                         yield dict(kind='2d', check=chk, wave=wc, wave_row=wr, mode=mode, J=J, H=H, W=W, nb=1, C=2, axes=[(H, Lc), (W, Lr)], seed=int(rng.integers(1 << 30)))
@@ -67,6 +67,23 @@ def oracle_run(cfg):
                     return dict(detail='2-tuple / name / repeated 4-tuple constructions disagree')
             return None
         ref = pywt.wavedec2(X, c01.pywt_arg(cfg), mode=mode, level=J, axes=(-2, -1))
+        if chk == 'inv_none':
+            # a None level must act like zeros of that level, with the filters still on their own axes:
+            # compare with PyWavelets given explicit zeros (level shapes are even here, so no oversize lowpass)
+            yl = torch.tensor(ref[0]); yh = [torch.tensor(np.stack(t, axis=2)) for t in ref[1:]][::-1]
+            k = cfg['seed'] % J
+            from props import c10
+            if c10.none_oversize(dict(cfg, none=[1 if j == k else 0 for j in range(J)]), None) or per_short(cfg):
+                return None          # region of C10's known finding KF-NONE-OVERSIZE / KF-PER-SHORT: not an axis question
+            yh_in = [None if j == k else h for j, h in enumerate(yh)]
+            got = DWTInverse(wave=c01.wave_arg(cfg, 'rec'), mode=mode)((yl, yh_in)).numpy()
+            ref2 = [ref[0]] + [tuple(np.zeros_like(a) for a in t) if (J - 1 - i) == k else t for i, t in enumerate(ref[1:])]
+            want = pywt.waverec2(ref2, c01.pywt_arg(cfg), mode=mode, axes=(-2, -1))
+            H, W = cfg['H'], cfg['W']
+            if got.shape[-2] < H or got.shape[-1] < W:
+                return dict(detail='inverse with a None level: shape %s smaller than the extent' % (got.shape,))
+            ok, msg = tol_close(got[..., :H, :W], want[..., :H, :W], dwtfam.gain(cfg['wave'], J, 2) * dwtfam.gain(cfg['wave_row'], J, 2))
+            return None if ok else dict(detail='inverse with a None level differs from pywt with zeros on the extent: ' + msg)
         if chk == 'inv':
             yl = torch.tensor(ref[0]); yh = [torch.tensor(np.stack(t, axis=2)) for t in ref[1:]][::-1]
             got = DWTInverse(wave=c01.wave_arg(cfg, 'rec'), mode=mode)((yl, yh)).numpy()
